@@ -103,6 +103,13 @@ def stepOp (H : Host) (pseudo : Option (List PChild)) (ptSpace : Bool) (r : Run)
         { r with st := st, ids := ids, outs := r.outs.push ("ok:" ++ s) }
   | _ => { r with outs := r.outs.push "bad-op" }
 
+/-- `pp~<a>~<b>`: two requests on one handle from two threads (the harness parks `a` in its first
+    entry callback while `b` runs); sequentially equivalent: `a`, then `b` -/
+def stepOps (H : Host) (pseudo : Option (List PChild)) (ptSpace : Bool) (r : Run) (op : String) : Run :=
+  match op.splitOn "~" with
+  | ["pp", a, b] => stepOp H pseudo ptSpace (stepOp H pseudo ptSpace r a) b
+  | _ => stepOp H pseudo ptSpace r op
+
 def showSkip : SkipRes → String
   | .notFound => "notfound"
   | .found rest => "found:" ++ hex rest
@@ -132,7 +139,7 @@ def runLine (line : String) : String :=
     if getD kv "fs" == "pseudo" then some (dir.map fun e => { ino := e.ino, name := e.name }) else none
   let st0 : St := { noOpendir := getNatD kv "nod" == 1 }
   let ops := (getD kv "ops").splitOn ";" |>.filter (!·.isEmpty)
-  let r := ops.foldl (stepOp H pseudo (getD kv "fs" == "pt")) ({ st := st0 } : Run)
+  let r := ops.foldl (stepOps H pseudo (getD kv "fs" == "pt")) ({ st := st0 } : Run)
   let alive := (r.st.refs.foldl (fun (m : Std.HashMap Nat Unit) i => m.insert i ()) {}).size
   (if badReclen then "reclen-mismatch " else "") ++ ";".intercalate r.outs.toList ++ s!" alive={alive}"
 
